@@ -37,9 +37,11 @@ func main() {
 	roundTrip(r)
 	idGenerator(r)
 	strGenerator(r)
+	strGeneratorLarge(r)
 	strOverlap(r)
 	idOverlap(r)
 	countGenerator(r)
+	packageLevel(r)
 	r.Assume("small-scope: ParseBase32 inputs up to 3 arbitrary bytes (+ structured longer numerals); IDs < 2^20 (quick) / 2^24 (thorough) and 2^k-1,2^k,2^k+1",
 		"IdGenerator timestamps are compared with a bracket measured around the call, random source scripted through crypto/rand.Reader",
 		"StrGenerator: scripted rand.Source answers of <= 3 words followed by a fixed accepting tail")
@@ -90,7 +92,11 @@ func parseAll(r *common.Run) {
 				}
 				return
 			}
-			if err != nil || int64(id) != want {
+			// demanded for the numerals Base32 prints (no leading zero): the value. The empty input and
+			// numerals with leading zeros are not outputs of Base32: rejecting them is within the
+			// property, accepting them with another value is not.
+			canon := len(in) > 0 && (in[0] != '0' || len(in) == 1)
+			if (err != nil && canon) || (err == nil && int64(id) != want) {
 				r.Violation("ParseBase32|wrong-value", fmt.Sprintf("ParseBase32(%q) = %d, %v; want %d", in, id, err, want), map[string]any{"input": string(in)}, "")
 			}
 		}
@@ -127,6 +133,14 @@ func parseAll(r *common.Run) {
 					}
 				} else if err != nil {
 					r.Violation("ParseBase32|error-on-valid", fmt.Sprintf("ParseBase32(%q) error %v", in, err), map[string]any{"input": string(in)}, "")
+				} else {
+					var want int64
+					for _, c := range in {
+						want = want*32 + int64(digit[c])
+					}
+					if int64(id) != want {
+						r.Violation("ParseBase32|wrong-value", fmt.Sprintf("ParseBase32(%q) = %d; want %d", in, id, want), map[string]any{"input": string(in)}, "")
+					}
 				}
 			}
 		}
@@ -214,6 +228,25 @@ func roundTrip(r *common.Run) {
 	}
 	checkID(r, 1<<63-1)
 	r.Eval(1)
+	// every digit value in every digit position of 13-digit IDs (generator-sized values), three fillers
+	for _, filler := range []string{"1000000000000", "1zzzzzzzzzzzz", "15a5a5a5a5a5a"} {
+		for pos := 0; pos < 13; pos++ {
+			for d := 0; d < 32; d++ {
+				if pos == 0 && (d == 0 || d > 7) {
+					continue // no leading zero; the leading digit of an int63 is at most 7
+				}
+				b := []byte(filler)
+				b[pos] = alphabet[d]
+				var v int64
+				for _, c := range b {
+					v = v*32 + int64(digit[c])
+				}
+				checkID(r, v)
+				r.Eval(1)
+				r.Nontrivial(1)
+			}
+		}
+	}
 	r.SampleL("round-trip", map[string]any{"id": int64(1)<<40 + 1, "base32": randz.ID(int64(1)<<40 + 1).Base32()})
 	// every numeral of length <= 4 parses to its positional value and prints back canonically
 	syms := make([]string, len(alphabet))
@@ -224,7 +257,9 @@ func roundTrip(r *common.Run) {
 		r.Eval(1)
 		id, err := randz.ParseBase32([]byte(s))
 		if err != nil {
-			r.Violation("ParseBase32|error-on-valid", fmt.Sprintf("ParseBase32(%q) error %v", s, err), map[string]any{"input": s}, "")
+			if s != "" && s == canonical(s) { // only the numerals Base32 prints must be accepted
+				r.Violation("ParseBase32|error-on-valid", fmt.Sprintf("ParseBase32(%q) error %v", s, err), map[string]any{"input": s}, "")
+			}
 			return
 		}
 		if s != "" && id.Base32() != canonical(s) {
@@ -269,6 +304,7 @@ func idGenerator(r *common.Run) {
 		name string
 		d    time.Duration
 	}{{"now", 0}, {"-1ms", -time.Millisecond}, {"-1s", -time.Second}, {"-1y", -365 * 24 * time.Hour},
+		{"-(2^40+7)ms", -time.Duration(int64(1)<<40+7) * time.Millisecond}, {"-(2^41-1000)ms", -time.Duration(int64(1)<<41-1000) * time.Millisecond},
 		{"-(2^41+5)ms", -time.Duration(int64(1)<<41+5) * time.Millisecond}, {"+1s(future)", 5 * time.Second}}
 	for randBit := -1; randBit <= 24; randBit++ {
 		eff := randBit
@@ -282,7 +318,8 @@ func idGenerator(r *common.Run) {
 			for _, rdr := range readers {
 				start := time.Now().Add(off.d)
 				g := randz.NewIdGenerator(start, randBit)
-				srand.Reader = rdr.mk()
+				rd := rdr.mk()
+				srand.Reader = rd
 				var prev randz.ID = -1
 				for rep := 0; rep < 2; rep++ {
 					before := time.Since(start).Milliseconds()
@@ -300,7 +337,11 @@ func idGenerator(r *common.Run) {
 					}
 					// random part: below 2^randBit by construction of the split; the scripted reader pins it
 					rnd := int64(id) & (int64(1)<<eff - 1)
-					switch rdr.name {
+					consulted := ""
+					if sr, ok := rd.(*scriptReader); ok && sr.n > 0 {
+						consulted = rdr.name // the scripted crypto/rand.Reader was really read: its answer pins the random part
+					}
+					switch consulted {
 					case "zeros":
 						if rnd != 0 {
 							r.Violation("IdGenerator.Generate|random-part", fmt.Sprintf("random part %d with an all-zero source", rnd), c, "")
@@ -312,8 +353,10 @@ func idGenerator(r *common.Run) {
 					}
 					ts := int64(id) >> eff
 					if off.d <= 0 {
-						// bracket (no wall-clock threshold): before <= ts <= after, modulo 2^41
-						if (ts-before)&mask > (after-before) || ts > mask {
+						// bracket (no wall-clock threshold): before-1 <= ts <= after+1, modulo 2^41 (one
+						// millisecond of slack either way: elapsed time may be rounded or taken as a
+						// difference of two truncated clock readings)
+						if (ts-(before-1))&mask > (after-before+2) || ts > mask {
 							r.Violation("IdGenerator.Generate|timestamp", fmt.Sprintf("id>>%d = %d not within the measured bracket [%d,%d] (mod 2^41)", eff, ts, before&mask, after&mask), c, "")
 						}
 						if rep == 1 && off.name != "-(2^41+5)ms" && id <= prev {
@@ -354,6 +397,55 @@ func (s *scriptSource) Int63() int64 {
 	return v
 }
 func (s *scriptSource) Seed(int64) {}
+
+// strGeneratorLarge: long outputs and set sizes around the index-bit boundaries (63/64/65 need 6/7
+// bits, 127/128/129 and 255/256 need 7/8/9): script of <= 1 word, then the accepting tail.
+func strGeneratorLarge(r *common.Run) {
+	var pool []rune
+	for c := rune(0x4e00); len(pool) < 300; c++ { // distinct 3-byte runes
+		pool = append(pool, c)
+	}
+	menu := []int64{0, 1<<63 - 1, 0x5555555555555555}
+	var n int64
+	for _, size := range []int{63, 64, 65, 127, 128, 129, 255, 256, 257} {
+		set := string(pool[:size])
+		in := map[rune]bool{}
+		for _, c := range set {
+			in[c] = true
+		}
+		for sl := 0; sl <= 1; sl++ {
+			for mi := range menu {
+				if sl == 0 && mi > 0 {
+					continue
+				}
+				for _, k := range []int{1, 8, 9, 10, 63, 64, 65, 1000} {
+					n++
+					src := &scriptSource{script: menu[mi : mi+sl]}
+					g := randz.NewStrGenerator(set, src)
+					var out string
+					_, st, p := common.Catch(func() { out = g.Generate(k) })
+					c := map[string]any{"charset_size": size, "script": menu[mi : mi+sl], "n": k}
+					if p {
+						r.Violation("StrGenerator.Generate|panic", "Generate panicked", map[string]any{"case": c, "stack": st}, "")
+						continue
+					}
+					if cnt := utf8.RuneCountInString(out); cnt != k || !utf8.ValidString(out) {
+						r.Violation("StrGenerator.Generate|length", fmt.Sprintf("Generate(%d) over a set of %d runes returned %d runes", k, size, cnt), c, "")
+					}
+					for _, ch := range out {
+						if !in[ch] {
+							r.Violation("StrGenerator.Generate|foreign-rune", fmt.Sprintf("Generate(%d) over a set of %d runes contains %q which is not in the set", k, size, ch), c, "")
+							break
+						}
+					}
+				}
+			}
+		}
+	}
+	r.Eval(n)
+	r.Nontrivial(n)
+	r.Section(map[string]any{"family": "StrGenerator: set sizes 63..257, lengths up to 1000", "cases": n})
+}
 
 func strGenerator(r *common.Run) {
 	pool := []rune("ab世😀éZ0_-~" + "ABCDEFGHJKMNPQRSTUVWXYZ23456789")
@@ -415,7 +507,8 @@ func countGenerator(r *common.Run) {
 			}
 		}
 	}
-	ids := []string{"", "a", "zz"}
+	// the id only enters through its hash modulo the increments (1..3): one id per residue 0..5 mod 6
+	ids := []string{"", "a", "b", "c", "d", "e", "f", "zz"}
 	run := func(set []ruleT) {
 		var g randz.CountGenerator
 		maxP := 0
